@@ -220,7 +220,9 @@ func setStoredValidators(r responder.Responder, cached *cache.Entry[cachedReques
 	if cached.Metadata.Object.ETag != "" {
 		r.SetHeader("ETag", cached.Metadata.Object.ETag)
 	}
-	if !cached.Metadata.Object.LastModified.IsZero() {
+	// The stored headers carry the origin's own Last-Modified line. It is handed on as the origin spelled it
+	// (an RFC 850 or asctime date stays one); the parsed time is only written out where the line is missing.
+	if !cached.Metadata.Object.LastModified.IsZero() && r.GetHeaders().Get("Last-Modified") == "" {
 		r.SetHeader("Last-Modified", cached.Metadata.Object.LastModified.Format(http.TimeFormat))
 	}
 }
